@@ -103,6 +103,11 @@ CHECKS["C19"] = ("exploration",
  "(a) every builtin name/arity applied to up to 4 argument tuples plus ~70 programs naming the environment, inputs, modules and command-only names, on 8 inputs, compiled without options in a driver process run under 7 ambient configurations (environment, working directory full of modules, ~/.jq, stdin, time zone): output identical line by line, no planted marker ever shown. (b) WithVariables: all lists of 0..4 names x 0..5 values; WithInputIter: 6 streams x 18 programs x 1..2 runs against a queue model; WithEnvironLoader: 6 pair lists x 9 programs; WithFunction/WithIterFunction: all 496 arity ranges x arities 0..31, invalid ranges, 12 x 12 x 4 overlapping registrations, option values reused over 9^3 compile histories; 25 programs x all 2-run histories over 15 inputs on one Code versus a fresh Code. (c) 16 Go callbacks versus jq definitions with the same relation: ~200 calls x the 43 one-hole contexts of the C01 towers nested to depth 2 x 4 inputs.",
  "The driver process is the vcheck binary itself, linking the tree under test; now and the time-zone dependent date functions are exempt as the property says.",
  "DESIGN.md §4 C19")
+CHECKS["C06"] = ("model_checking",
+ "stateless exploration of ALL schedules up to 2 preemptions of G real goroutines on the real code under a hand-written cooperative scheduler (scheduling points: every package-sync operation via a build-overlay shim, Compile, every Iter.Next return), with the Go race detector run inside every execution (hand-offs hidden from it by runtime.RaceDisable) plus a free-running -race pass",
+ "98 programs (delete/update-heavy incl. updates that delete paths, sort/group, streams, regex builtins with equal and different patterns/flags, programs whose literals are nested containers) x sharing modes {one *Code + one input; one *Code, distinct inputs; one *Query compiled by each goroutine; distinct Codes + one input; shared value as variable} for G=2, G=3 on one Code and input, pairs of different programs on one shared input and pairs of goroutines compiling their own queries (quick: a quarter of the pairs; thorough: all). Every schedule with <= 2 preemptions is executed; oracle per execution: no race report, no fatal error, no deadlock, each goroutine's outputs equal its outputs alone, shared input unchanged.",
+ "The race detector's happens-before analysis (4 shadow cells per word) stands for the memory model; weak-memory reorderings beyond it are not modelled.",
+ "DESIGN.md §4 C06")
 NOT_YET = "check not built yet (work in progress in this session); see DESIGN.md for the planned exploration"
 
 def commits():
